@@ -36,8 +36,19 @@ def mutants(block, rnd, limit=6):
     for i in idx:
         n, v = block[i]
         cands = []
+        ar = evm.ARITY.get(n, (0, 0))[0]
         if n in NONCOMM:
             cands.append(("operand-swap " + n, block[:i] + [("SWAP1", None)] + block[i:]))
+        elif ar == 2 and not n.startswith(("DUP", "SWAP")) and n not in ("MSTORE", "SSTORE", "MSTORE8") and rnd.random() < 0.3:
+            # operations the front-end treats as commutative (or not): the oracle decides whether a state tells them apart
+            cands.append(("operand-swap " + n, block[:i] + [("SWAP1", None)] + block[i:]))
+        if ar >= 3 and not n.startswith(("DUP", "SWAP")):
+            # every transposition of two operands of a ternary (or wider) operation
+            for a_ in range(1, min(ar, 7)):
+                cands.append(("operand-swap %s (1,%d)" % (n, a_ + 1), block[:i] + [("SWAP%d" % a_, None)] + block[i:]))
+            if ar >= 3:
+                cands.append(("operand-swap %s (2,3)" % n,
+                              block[:i] + [("SWAP1", None), ("SWAP2", None), ("SWAP1", None)] + block[i:]))
         if n in SUBST:
             m = rnd.choice(SUBST[n])
             cands.append(("opcode %s->%s" % (n, m), block[:i] + [(m, None)] + block[i + 1:]))
